@@ -30,6 +30,7 @@ type vStreamInfo struct {
 	nRecords   int // record messages expected in the container
 	nLaps      int
 	nActivities int
+	actTs, actLocal uint32 // timestamp and local_timestamp of the last activity record
 	unkMsgNum  MesgNum
 	unkFldNum  byte
 	nUnkMsg    int
@@ -89,8 +90,11 @@ func vGenStream(kinds []int, hdrCRC bool) *vStreamInfo {
 			body.Write([]byte{0x05, vByte(), vByte(), vByte(), 0x20, vByte(), vByte(), vByte(), vByte()})
 			s.nLaps++
 		case vKindActivity:
-			body.Write([]byte{0x06, vByte(), vByte(), vByte(), 0x20, vByte(), vByte(), vByte(), 0x20})
+			b := []byte{0x06, vByte(), vByte(), vByte(), 0x20, vByte(), vByte(), vByte(), 0x20}
+			body.Write(b)
 			s.nActivities++
+			s.actTs = uint32(b[1]) | uint32(b[2])<<8 | uint32(b[3])<<16 | uint32(b[4])<<24
+			s.actLocal = uint32(b[5]) | uint32(b[6])<<8 | uint32(b[7])<<16 | uint32(b[8])<<24
 		}
 		s.ends = append(s.ends, s.hdr+body.Len())
 		s.kinds = append(s.kinds, k)
